@@ -1266,7 +1266,12 @@ fn render_type_arguments(arguments: &[Type]) -> String {
 }
 
 fn render_tuple_type(tuple_type: &TupleType) -> String {
-    let name = tuple_type.name.clone().unwrap_or_default();
+    let mut name = tuple_type.name.clone().unwrap_or_default();
+    // A lowercase name can only come from the alias-spread form (`'event[..., x: 'int]`), where the
+    // parser stores the alias name without its `'`; restore it so the output re-parses.
+    if name.starts_with(|c: char| c.is_ascii_lowercase()) {
+        name.insert(0, '\'');
+    }
     if tuple_type.fields.is_empty() {
         return if tuple_type.is_partial {
             format!("{}()", name)
